@@ -45,8 +45,8 @@ def _page_loop(py, fn) -> Tuple[ast.For, str]:
 
 def r1_containment(ctx, rep):
     py = ctx.py
-    fn = py.func("pagetree.get_page_tree")
-    init = py.func("PageNode.__init__")
+    fn = py.ifunc("pagetree.get_page_tree")
+    init = py.ifunc("PageNode.__init__")
     par = astq.parents_of(fn)
     # what PageNode raises for a missing title: the raise guarded by a test on `.title`
     raised = []
@@ -113,7 +113,7 @@ def r1_containment(ctx, rep):
 
 def r2_order(ctx, rep):
     py = ctx.py
-    fn = py.func("pagetree.get_page_tree")
+    fn = py.ifunc("pagetree.get_page_tree")
     loop, name = _page_loop(py, fn)
     # the directory listing
     listdirs = [c for c in ast.walk(fn) if isinstance(c, ast.Call) and call_name(c) in ("os.listdir", "listdir", "os.scandir")]
@@ -144,7 +144,7 @@ def r2_order(ctx, rep):
     rep.ob("index.md removed from the listing", ok, "" if ok else
            "index.md stays in the directory listing: the index page is also created as a sub-page of itself", py.nloc(fn))
     # index.md taken out of the user's list
-    pn = py.func("PageNode.__init__")
+    pn = py.ifunc("PageNode.__init__")
     asg = astq.assignments(pn, "self.ordered_subpages")
     if not asg:
         raise AnalysisError("PageNode.__init__: self.ordered_subpages is not assigned")
@@ -175,10 +175,19 @@ def r2_order(ctx, rep):
             binds = {k: (v, fn, {}) for k, v in astq.bind_args(call, h).items()}
         hpar = astq.parents_of(h)
         for n in ast.walk(h):
+            # a concatenation of two sequences, however spelled: a + b, [*a, *b], chain(a, b)
+            parts = None
             if isinstance(n, ast.BinOp) and isinstance(n.op, ast.Add):
-                l, r = es.sources(n.left, h, binds), es.sources(n.right, h, binds)
+                parts = [n.left, n.right]
+            elif isinstance(n, (ast.List, ast.Tuple)) and len(n.elts) >= 2 and all(isinstance(x, ast.Starred) for x in n.elts):
+                parts = [x.value for x in n.elts]
+            elif isinstance(n, ast.Call) and call_name(n).split(".")[-1] == "chain" and len(n.args) >= 2:
+                parts = list(n.args)
+            if parts:
+                l, r = es.sources(parts[0], h, binds), es.sources(parts[-1], h, binds)
                 if r == {"LISTING"} and l and "?" not in l and not any(x.startswith("param:") for x in l):
                     merged = (h, n, l, r, hpar)
+                    merged_left = parts[0]
     all_src = es.sources(loop.iter, fn)
     if merged is None:
         rep.ob("ordered pages first, rest alphabetical, duplicates removed", False,
@@ -187,10 +196,17 @@ def r2_order(ctx, rep):
     else:
         h, add, l, r, hpar = merged
         # the user's order is the left operand (possibly narrowed to names that exist: then its sources are the listing)
-        left_txt = " ".join(ast.unparse(x) for x in astq.expand_locals(add.left, h))
+        left_txt = " ".join(ast.unparse(x) for x in astq.expand_locals(merged_left, h))
+        # a list that is filled in a loop takes its order from what the loop iterates
+        if isinstance(merged_left, ast.Name):
+            for lp in ast.walk(h):
+                if isinstance(lp, ast.For) and any(
+                        isinstance(c, ast.Call) and isinstance(c.func, ast.Attribute) and c.func.attr in ("append", "extend", "insert")
+                        and isinstance(c.func.value, ast.Name) and c.func.value.id == merged_left.id for c in ast.walk(lp)):
+                    left_txt += " " + " ".join(ast.unparse(x) for x in astq.expand_locals(lp.iter, h))
         first_user = "ordered_subpages" in left_txt or any(
             "ordered_subpages" in ast.unparse(v) for k, (v, _, _) in ({} if h is fn else binds).items()
-            if any(isinstance(x, ast.Name) and x.id == k for e2 in astq.expand_locals(add.left, h) for x in ast.walk(e2))) or \
+            if any(isinstance(x, ast.Name) and x.id == k for e2 in astq.expand_locals(merged_left, h) for x in ast.walk(e2))) or \
             any(isinstance(x, ast.Name) and any("ordered_subpages" in ast.unparse(v) for k, (v, _, _) in binds.items() if k == x.id)
                 for st in ast.walk(h) if isinstance(st, (ast.For, ast.comprehension)) for x in ast.walk(st.iter)) if h is not fn else \
             "ordered_subpages" in left_txt
@@ -295,7 +311,7 @@ def r3_layout_names(ctx, rep):
            "the search-index location and the written file agree with the URL" if ok else
            f"loc = {[ast.unparse(e) for e in rl]}, outfile = {[ast.unparse(e) for e in ro]}: they no longer name the same file "
            f"below '{d_page}'", py.nloc(loc))
-    pn = py.func("PageNode.__init__")
+    pn = py.ifunc("PageNode.__init__")
     locs = astq.assignments(pn, "self.location")
     rel = [v for _, v in locs if any(call_name(c).endswith("relpath") or call_name(c).endswith("relative_to") for c in ast.walk(v) if isinstance(c, ast.Call))]
     ok = bool(rel) and all("topdir" in ast.unparse(v) and "parent" in ast.unparse(v) for v in rel)
@@ -310,7 +326,7 @@ def r3_layout_names(ctx, rep):
 
 def r4_conversion_path(ctx, rep):
     py = ctx.py
-    pn = py.func("PageNode.__init__")
+    pn = py.ifunc("PageNode.__init__")
     conv = [c for c in astq.calls(pn, "convert")]
     if not conv:
         raise AnalysisError("PageNode.__init__: md.convert call not found")
@@ -329,7 +345,7 @@ def r4_conversion_path(ctx, rep):
                f"links in a nested page are made relative to <out>/{d_page}/<sub-directory>" if ok else
                f"path= is built from {[ast.unparse(e) for e in astq.expand_locals(kw['path'], pn)]}: not <output_dir>/{d_page}/<directory of the page>",
                py.nloc(c))
-    gdef = py.func("pagetree.get_page_tree")
+    gdef = py.ifunc("pagetree.get_page_tree")
     gp = [c for c in py.walk_calls(py.func("__init__.main")) if call_name(c).split(".")[-1] == "get_page_tree"]
     if not gp:
         raise AnalysisError("main: get_page_tree call not found")
@@ -345,7 +361,7 @@ def r4_conversion_path(ctx, rep):
     ok = all(k in b and ast.unparse(b[k]) == k for k in ("proj_copy_subdir", "output_dir", "md")) and \
         "parent" in b and ast.unparse(b["parent"]) != "parent" and "topdir" in b and ast.unparse(b["topdir"]) != "topdir"
     rep.ob("recursion keeps output_dir and passes the parent node", ok, f"{ {k: ast.unparse(v) for k, v in b.items()} }", "ford/pagetree.py")
-    idef = py.func("PageNode.__init__")
+    idef = py.ifunc("PageNode.__init__")
     for c in _ctor_calls(gdef):
         b = astq.bind_args(c, idef, skip_self=True)
         ok = all(k in b for k in ("md", "path", "output_dir", "proj_copy_subdir", "parent")) and ast.unparse(b["output_dir"]) == "output_dir"
@@ -354,7 +370,7 @@ def r4_conversion_path(ctx, rep):
 
 def r5_copy_for_every_page(ctx, rep):
     py = ctx.py
-    fn = py.func("PagetreePage.writeout")
+    fn = py.ifunc("PagetreePage.writeout")
     loops = [n for n in ast.walk(fn) if isinstance(n, ast.For)]
     cs = [l for l in loops if ast.unparse(l.iter).endswith(".copy_subdir")]
     fl = [l for l in loops if ast.unparse(l.iter).endswith(".files")]
@@ -374,7 +390,9 @@ def r5_copy_for_every_page(ctx, rep):
     sup = [c for c in ast.walk(fn) if isinstance(c, ast.Call) and isinstance(c.func, ast.Attribute) and c.func.attr == "writeout"
            and isinstance(c.func.value, ast.Call) and call_name(c.func.value) == "super"]
     rep.ob("the page itself is written", bool(sup) and not astq.conditions_of(sup[0], par, stop=fn) if sup else False, "", py.nloc(fn))
-    mk = [c for c in astq.calls(fn, "mkdir", "makedirs") if "location" in ast.unparse(c)]
+    mk = [c for c in astq.calls(fn, "mkdir", "makedirs")
+          if any("location" in ast.unparse(x) for a in [c.func.value if isinstance(c.func, ast.Attribute) else c] + list(c.args)
+                 for x in astq.expand_locals(a, fn))]
     ok = bool(mk) and bool(sup) and mk[0].lineno < sup[0].lineno
     rep.ob("an index page creates its directory first", ok, "", py.nloc(fn))
     ct = py.func("output.copytree")
@@ -386,7 +404,7 @@ def r5_copy_for_every_page(ctx, rep):
            "shutil.copytree / makedirs semantics" if ok else
            "copytree() creates the destination with a plain mkdir(): a nested `copy_subdir: assets/img` whose parent does not "
            "exist in the output fails and the directory is silently not copied", py.nloc(ct))
-    pn = py.func("PageNode.__init__")
+    pn = py.ifunc("PageNode.__init__")
     asg = astq.assignments(pn, "self.copy_subdir")
     ok = bool(asg) and any(isinstance(v, (ast.BoolOp, ast.IfExp)) and "meta.copy_subdir" in ast.unparse(v)
                            and "proj_copy_subdir" in ast.unparse(v) and
@@ -412,7 +430,7 @@ def r5_copy_for_every_page(ctx, rep):
            f"absolute entries: `copy_subdir: media` in the project file is never copied for any page", py.nloc(np_), nontrivial=not ok)
     # directories named by the index page of a directory are copied verbatim, not rendered: the recursion of get_page_tree
     # skips them - by the copy_subdir of the node built from THIS directory's index file, compared as names
-    gpt = py.func("pagetree.get_page_tree")
+    gpt = py.ifunc("pagetree.get_page_tree")
     node_var = next((t.id for st in ast.walk(gpt) if isinstance(st, ast.Assign) and isinstance(st.value, ast.Call)
                      and call_name(st.value) == "PageNode" and any("index" in ast.unparse(a) for a in st.value.args)
                      for t in st.targets if isinstance(t, ast.Name)), None)
